@@ -1,10 +1,27 @@
 (* CorrC26.v — correspondence entry point for stream-writer histories. *)
 From Verif Require Import Bytes Keys Consts Spec Lsm Compact Iter Sys Corr Drop StreamWriter.
-From Verif Require CorrSys CorrC29.
+From Verif Require CorrSys CorrC29 StreamWriterPlace.
 Open Scope N_scope.
 
+(* one class of streamed entries of a placement session (harness/swplace.go):
+   (number of entries, len(value), thresholds possibly in force at valueLog.write's
+   consultation, thresholds in force later until Flush, a value-log record was written, the
+   table stores the value inline) *)
+Definition pclass := (N * Z * list Z * list Z * bool * bool)%type.
+
 Inductive case :=
-| SWHist (managed detect : bool) (nkeep : N) (nlevels : N) (next : N) (ops : list swop).
+| SWHist (managed detect : bool) (nkeep : N) (nlevels : N) (next : N) (ops : list swop)
+| SWPlace (dynamic : bool) (classes : list pclass).
+
+(* index of the first class the placement model disagrees on *)
+Fixpoint place_run (cs : list pclass) (i : N) (tags : list N) : option N * list N :=
+  match cs with
+  | [] => (None, tags)
+  | (_, vlen, cands, later, vrec, inln) :: r =>
+      if StreamWriterPlace.place_agrees vlen cands later vrec inln
+      then place_run r (i + 1) (StreamWriterPlace.place_tags vlen cands later inln ++ tags)
+      else (Some i, tags)
+  end.
 
 Definition swop_tags (o : swop) : list N :=
   match o with
@@ -22,5 +39,10 @@ Definition run_case (c : case) : bool * list N :=
       match bad with
       | None => (true, CorrSys.dedup (tags ++ flat_map swop_tags ops) [])
       | Some (i, code) => (false, [1000 + i; 100000 + code])
+      end
+  | SWPlace dynamic classes =>
+      match place_run classes 0 [] with
+      | (None, tags) => (true, CorrSys.dedup ((if dynamic then 621 else 620) :: tags) [])
+      | (Some i, _) => (false, [1000 + i; 100600])
       end
   end.
